@@ -1435,4 +1435,152 @@ theorem nthOf_spec {next : σ → Outcome (Option β × σ)} {s0 : σ} {total : 
 
 end Consumers
 
+/-! ### the with-index wrapper has no state of its own; mapped and writing iterators -/
+
+section Wrappers
+variable {σ π κ α β γ : Type}
+
+/-- For *any* step function: the with-index wrapper makes exactly the calls of the wrapped
+    iterator — same final state, same items (paired with something), same panics. -/
+theorem collect_withIndex (counter : σ → π) (next : σ → Outcome (Option β × σ)) (n : Nat) (s : σ) :
+    (∀ xs s', collect next n s = .ok (xs, s') →
+      ∃ ys, collect (withIndexNext counter next) n s = .ok (ys, s') ∧
+        ys.map (Option.map Prod.snd) = xs) ∧
+    (∀ k, collect next n s = .panic k → collect (withIndexNext counter next) n s = .panic k) := by
+  induction n generalizing s with
+  | zero =>
+    refine ⟨fun xs s' h => ?_, fun k h => ?_⟩
+    · simp only [collect, Outcome.ok.injEq, Prod.mk.injEq] at h
+      exact ⟨[], by simp [collect, h.2], by simp [h.1]⟩
+    · simp [collect] at h
+  | succ n ih =>
+    cases hn : next s with
+    | panic k =>
+      refine ⟨fun xs s' h => ?_, fun k' h => ?_⟩
+      · simp [collect, hn] at h
+      · simp only [collect, hn, Outcome.panic.injEq] at h
+        simp [collect, withIndexNext, hn, h]
+    | ok r =>
+      obtain ⟨x, t⟩ := r
+      obtain ⟨ih1, ih2⟩ := ih t
+      refine ⟨fun xs s' h => ?_, fun k h => ?_⟩
+      · simp only [collect, hn] at h
+        cases hc : collect next n t with
+        | panic k => simp [hc] at h
+        | ok r' =>
+          obtain ⟨xs', t'⟩ := r'
+          simp only [hc, Outcome.ok.injEq, Prod.mk.injEq] at h
+          obtain ⟨ys, hy, hm⟩ := ih1 xs' t' hc
+          refine ⟨(x.map fun x => (counter s, x)) :: ys, ?_, ?_⟩
+          · simp [collect, withIndexNext, hn, hy, h.2]
+          · rw [← h.1]
+            cases x <;> simp [hm]
+      · simp only [collect, hn] at h
+        cases hc : collect next n t with
+        | ok r' => simp [hc] at h
+        | panic k' =>
+          simp only [hc, Outcome.panic.injEq] at h
+          simp [collect, withIndexNext, hn, ih2 k' hc, h]
+
+/-- a mapped iterator enumerates the mapped items -/
+theorem _root_.EasyMl.Spec.Enumerates.map {next : σ → Outcome (Option β × σ)} {s0 : σ}
+    {total : Nat} {item : Nat → Option β} {state : Nat → σ}
+    (E : Enumerates next s0 total item state) (f : β → γ) :
+    Enumerates (mapNext f next) s0 total (fun k => (item k).map f) state where
+  start := E.start
+  step k := by simp [mapNext, E.step k]
+  some_iff k := by simpa using E.some_iff k
+
+/-- memory in which the listed cells have been rewritten with `g` -/
+def writtenMem [DecidableEq κ] (mem0 : κ → α) (g : α → α) (cells : List κ) : κ → α :=
+  fun c => if c ∈ cells then g (mem0 c) else mem0 c
+
+theorem write_collect_from [DecidableEq κ] {next : σ → Outcome (Option π × σ)} {s0 : σ}
+    {total : Nat} {item : Nat → Option π} {state : Nat → σ}
+    (E : Enumerates next s0 total item state) (cell : π → Option κ) (cellOf : Nat → κ)
+    (hcell : ∀ k, k < total → ∃ p, item k = some p ∧ cell p = some (cellOf k))
+    (hinj : ∀ j k, j < total → k < total → cellOf j = cellOf k → j = k)
+    (mem0 : κ → α) (g : α → α) (n j : Nat) :
+    collect (writeNext next cell g) n
+        (state j, writtenMem mem0 g ((List.range (min j total)).map cellOf)) =
+      .ok ((List.range' j n).map (fun k => if k < total then some (some (cellOf k)) else none),
+        (state (j + n), writtenMem mem0 g ((List.range (min (j + n) total)).map cellOf))) := by
+  induction n generalizing j with
+  | zero => simp [collect]
+  | succ n ih =>
+    rcases Nat.lt_or_ge j total with hj | hj
+    · obtain ⟨p, hp, hc⟩ := hcell j hj
+      have hnot : cellOf j ∉ (List.range (min j total)).map cellOf := by
+        intro hmem
+        obtain ⟨i, hi, he⟩ := List.mem_map.mp hmem
+        have hi' := List.mem_range.mp hi
+        have := hinj i j (by omega) hj he
+        omega
+      have hmem : update (writtenMem mem0 g ((List.range (min j total)).map cellOf)) (cellOf j)
+          (g (writtenMem mem0 g ((List.range (min j total)).map cellOf) (cellOf j))) =
+          writtenMem mem0 g ((List.range (min (j + 1) total)).map cellOf) := by
+        funext c
+        have e1 : min j total = j := by omega
+        have e2 : min (j + 1) total = j + 1 := by omega
+        have hnot' : cellOf j ∉ (List.range j).map cellOf := by rw [e1] at hnot; exact hnot
+        simp only [update, writtenMem, e1, e2, List.range_succ, List.map_append, List.mem_append,
+          List.map_cons, List.map_nil, List.mem_singleton, hnot', if_false]
+        by_cases hcj : c = cellOf j
+        · simp [hcj]
+        · simp [hcj]
+      have hstep : writeNext next cell g
+          (state j, writtenMem mem0 g ((List.range (min j total)).map cellOf)) =
+          .ok (some (some (cellOf j)), (state (j + 1),
+            writtenMem mem0 g ((List.range (min (j + 1) total)).map cellOf))) := by
+        simp only [writeNext, E.step j, hp, hc, hmem]
+      have e : j + 1 + n = j + (n + 1) := by omega
+      simp only [collect, hstep, ih (j + 1), List.range'_succ, List.map_cons, hj, if_true, e]
+    · have hnone := E.item_none j hj
+      have e1 : min j total = min (j + 1) total := by omega
+      have hstep : writeNext next cell g
+          (state j, writtenMem mem0 g ((List.range (min j total)).map cellOf)) =
+          .ok (none, (state (j + 1),
+            writtenMem mem0 g ((List.range (min (j + 1) total)).map cellOf))) := by
+        simp only [writeNext, E.step j, hnone, e1]
+      have : ¬ j < total := by omega
+      have e : j + 1 + n = j + (n + 1) := by omega
+      simp only [collect, hstep, ih (j + 1), List.range'_succ, List.map_cons, this, if_false, e]
+
+end Wrappers
+
+/-- reading a list back cell by cell -/
+theorem filterMap_range'_getElem?_map {β γ : Type} (f : β → γ) (l pre : List β) :
+    (List.range' pre.length l.length).filterMap (fun k => ((pre ++ l)[k]?).map f) = l.map f := by
+  induction l generalizing pre with
+  | nil => simp
+  | cons x xs ih =>
+    have e : pre ++ x :: xs = (pre ++ [x]) ++ xs := by simp
+    have hx : (pre ++ x :: xs)[pre.length]? = some x := by simp
+    simp only [List.length_cons, List.range'_succ, List.filterMap_cons, hx, Option.map_some,
+      List.map_cons]
+    congr 1
+    have := ih (pre ++ [x])
+    rw [List.length_append, List.length_singleton] at this
+    rw [e]
+    exact this
+
+/-- the closure's results in the first `p` cells, the old contents from there on -/
+theorem take_map_append_drop {α : Type} (m : Nat → α) (g : α → α) (n p : Nat) :
+    (((List.range n).map m).take p).map g ++ ((List.range n).map m).drop p =
+      (List.range n).map (fun i => if i < p then g (m i) else m i) := by
+  apply List.ext_getElem?
+  intro i
+  by_cases hi : i < n
+  · by_cases hp : i < p
+    · rw [List.getElem?_append_left (by simp; omega)]
+      simp [hi, hp]
+    · rw [List.getElem?_append_right (by simp; omega)]
+      simp only [List.length_map, List.length_take, List.length_range, List.getElem?_drop,
+        List.getElem?_map]
+      have e : p + (i - min p n) = i := by omega
+      simp [e, hi, hp]
+  · have h1 : ((((List.range n).map m).take p).map g ++ ((List.range n).map m).drop p).length ≤ i := by
+      simp; omega
+    rw [List.getElem?_eq_none h1, List.getElem?_eq_none (by simp; omega)]
+
 end EasyMl.Iter
